@@ -7,6 +7,7 @@ import (
 	"fmt"
 	"os"
 	"strings"
+	"verif/fold"
 
 	"pgregory.net/rapid"
 
@@ -100,7 +101,7 @@ func genColValue(t *rapid.T, u int) val.V {
 
 func shadowsRowid(tb sqlgen.Table) bool {
 	for _, c := range tb.Cols {
-		switch strings.ToLower(c.Name) {
+		switch fold.Lower(c.Name) {
 		case "rowid", "oid", "_rowid_":
 			return true
 		}
@@ -416,7 +417,7 @@ func (c *Catalog) RowidName() string {
 	for _, n := range []string{"rowid", "oid", "_rowid_"} {
 		sh := false
 		for _, col := range c.Columns {
-			if strings.EqualFold(col.Name, n) {
+			if fold.Equal(col.Name, n) {
 				sh = true
 			}
 		}
@@ -515,7 +516,7 @@ var AddDefaults = []string{"", "DEFAULT 5", "DEFAULT -3", "DEFAULT +7", "DEFAULT
 // "INTEGER"); sqlittle's parser dropped the arguments and treated it as one.
 func IntegerArgsPK(tb sqlgen.Table) bool {
 	for _, c := range tb.Cols {
-		ty := strings.ToUpper(strings.TrimSpace(c.Type))
+		ty := fold.Upper(strings.TrimSpace(c.Type))
 		if !strings.HasPrefix(ty, "INTEGER(") && !strings.HasPrefix(ty, "INTEGER (") {
 			continue
 		}
@@ -525,7 +526,7 @@ func IntegerArgsPK(tb sqlgen.Table) bool {
 			}
 		}
 		for _, k := range tb.Cons {
-			ku := strings.ToUpper(k)
+			ku := fold.Upper(k)
 			i := strings.Index(ku, "PRIMARY KEY (")
 			if i < 0 {
 				continue
@@ -560,7 +561,7 @@ func RawDefault(cat *Catalog, cols []string, got []interface{}, want val.Row) bo
 		}
 		var col *Column
 		for k := range cat.Columns {
-			if strings.EqualFold(cat.Columns[k].Name, cols[j]) {
+			if fold.Equal(cat.Columns[k].Name, cols[j]) {
 				col = &cat.Columns[k]
 			}
 		}
